@@ -78,6 +78,14 @@ def _make_data(cfg):
         return out
     if kind == "integer":
         return rng.randint(-3, 4, size=shape).astype(float)
+    if kind == "signed_zero":        # non-negative data holding negative zeros and subnormal entries: legal values like any other
+        out = rng.random_sample(shape) + 0.05
+        flat = out.reshape(-1)
+        idx = rng.permutation(flat.size)
+        flat[idx[: flat.size // 6]] = -0.0
+        flat[idx[flat.size // 6: flat.size // 4]] = 5e-324
+        flat[idx[flat.size // 4: flat.size // 3]] = 0.0
+        return out
     # ---- unusual STRUCTURE (legal inputs): symmetric, constant, one dominant component, orthogonal components, banded
     if kind == "symmetric":          # cubic shapes: invariant under every permutation of the modes
         import itertools
@@ -527,6 +535,20 @@ def _run_alg(cfg, data, cap, with_cb, tl, D):
     if alg in ("parafac", "nn_parafac", "nn_parafac_hals", "constrained_parafac", "rand_parafac"):
         init, rawinit = _init_arg(cfg)
         out["rawinit"] = rawinit
+        if cfg.get("prior_failed") and not isinstance(init, str) and alg != "rand_parafac":
+            # the caller's previous call with the SAME start object failed half-way (an unknown convergence criterion is
+            # detected at the end of the second sweep) and was caught: the objects it was given are used again below
+            fn = {"parafac": "parafac", "nn_parafac": "non_negative_parafac", "nn_parafac_hals": "non_negative_parafac_hals",
+                  "constrained_parafac": "constrained_parafac"}[alg]
+            kwf = dict(n_iter_max=4, init=init, random_state=seed, cvg_criterion="no-such-criterion", fixed_modes=_fixed_form(cfg))
+            kwf["tol_outer" if alg == "constrained_parafac" else "tol"] = 1e-12
+            if alg == "constrained_parafac":
+                kwf.update(cfg.get("constraints") or {"non_negative": True})
+            try:
+                getattr(D, fn)(data, rank, **kwf)
+                out["extra"]["prior_failed_did_not_fail"] = True
+            except Exception:
+                pass
     if alg == "parafac":
         kw = dict(n_iter_max=cap, init=init, tol=_tol(cfg), random_state=seed, return_errors=True,
                   normalize_factors=_nflag(cfg), linesearch=cfg.get("linesearch", False),
@@ -1081,6 +1103,12 @@ def nonneg_extra_configs(tier, seed):
         for data in ("negative", "sparse", "integer"):
             add(alg, shape=[4, 5, 3], rank=2, data=data, init=str(rng.choice(["svd", "random"])), tol="tiny", normalize=bool(rng.rand() < 0.5))
         add(alg, shape=[4, 5, 3], rank=2, data="signed", init="user", init_kind="nonneg", tol="tiny")
+    # negative zeros / subnormal entries in the data, every non-negative routine
+    for alg, rk in (("nn_parafac", 2), ("nn_parafac_hals", 2), ("nn_tucker", [2, 2, 2]), ("nn_tucker_hals", [2, 2, 2])):
+        for init in ("svd", "random"):
+            add(alg, shape=[4, 5, 3], rank=rk, data="signed_zero", init=init, tol="tiny", caps=[0, 1, 2, 5])
+    add("constrained_parafac", shape=[4, 5, 3], rank=2, data="signed_zero", init="svd", tol="zero", constraints={"non_negative": True}, caps=[0, 1, 2, 5])
+    add("parafac2", shape=[3, 0, 4], rows=[4, 5, 4], rank=2, data="signed_zero", init="svd", tol="tiny", nn_modes="all", caps=[0, 1, 2, 5])
     # fixed modes (non-negative user start) with the non-negative modes left at their default: the FREE modes stay >= 0
     for alg, kw in (("nn_parafac", {}), ("nn_parafac_hals", {}), ("nn_parafac_hals", {"nn_modes": "all"}),
                     ("constrained_parafac", {"constraints": {"non_negative": True}})):
@@ -1192,6 +1220,11 @@ def driver_configs(tier, seed, algs=None):
         for shp, fx in (([4, 3, 3], [-1]), ([3, 4, 4], [-1, 0]), ([4, 3, 3], [-2]), ([3, 3, 3], [-1, -3])):
             add("parafac", shape=shp, rank=2, data="generic", init="user", init_weights="none", tol="zero", fixed=fx, callback=True)
             add("parafac", shape=shp, rank=2, data="lowrank", init="user", init_weights="ones", tol="tiny", fixed=fx, normalize=True)
+        # ranks above a mode size (a factor wider than it is tall), data holding negative zeros and subnormal entries
+        for alg, dat in (("parafac", "generic"), ("parafac", "signed_zero"), ("nn_parafac", "signed_zero"), ("nn_parafac_hals", "signed_zero"),
+                         ("nn_parafac_hals", "nonneg")):
+            add(alg, shape=[4, 5, 3], rank=5, data=dat, init="random", tol="zero", normalize=bool(len(cfgs) % 2))
+            add(alg, shape=[4, 5, 3], rank=2, data=dat, init="svd", tol="tiny", normalize=bool(len(cfgs) % 2))
         add("parafac", shape=[4, 5, 3], rank=3, data="generic", init="svd", tol="zero", orthogonalise=True)
         add("parafac", shape=[4, 5, 3], rank=2, data="generic", init="random", tol="loose", normalize=True, tol_value=1e-2)
         # ---- non-negative CP (MU and HALS)
@@ -1616,6 +1649,14 @@ def warm_configs(tier, seed):
             add("tucker", shape=shape, rank=[2, 3, 2], data="generic", tol="zero", fixed=[[0, 1], [1], [2, 0]][j % 3], fixed_form=form, caps=[0, 1, 2])
         add("nn_tucker_hals", shape=shape, rank=[2, 2, 2], data="nonneg", tol="zero", algorithm="fista", fixed=[[0, 1], [1], [0]][j % 3],
             fixed_form=form, caps=[0, 1, 2])
+    # a previous call with the same start object failed half-way and was caught by the caller; the start is used again
+    for alg, kw in fixed_algs:
+        for fx, wk in (([], "positive"), ([0], "none"), ([1, 0], "mixed" if alg == "parafac" else "positive")):
+            add(alg, **dict(kw, shape=shape, rank=2, init_weights=wk, fixed=fx, prior_failed=True, caps=[0, 1, 2]))
+    # ranks at and above a mode size (a factor wider than it is tall), and rank 1
+    for alg, kw in fixed_algs:
+        for rk in (1, 3, 5):
+            add(alg, **dict(kw, shape=shape, rank=rk, init_weights="positive", fixed=[[], [0], [1]][rk % 3], caps=[0, 1, 2]))
     # the CLASS interface (CP, CP_NN, CP_NN_HALS, ConstrainedCP, Tucker, Tucker_NN, Tucker_NN_HALS, Parafac2) with the same budgets,
     # zero included: an estimator built with n_iter_max=0 evaluates the warm start and does not iterate
     for alg, kw in fixed_algs:
